@@ -34,6 +34,8 @@ def _pairs(tier, seed):
             h = sum(map(ord, cfg))
             if ("/" not in cfg) and (h + seed) % (9 if q else 3) != 0:
                 continue
+        if "dtype" in prm and fam in ("bch", "hamming", "golay") and q and prm["dtype"] not in ("int64", "float16"):
+            continue  # the encoders' dtype option: two dtypes in the quick tier, all six in the thorough tier
         if fam == "cyclic" and "form" in prm and prm["form"] != "g" and (q or prm["n"] > 15):
             continue  # same code as form=g (constructor variants are C01/C03's business)
         if fam == "hamming" and q and not isinstance(prm["info"], str) and (sum(map(ord, cfg)) + seed) % 4 != 0:
